@@ -1675,19 +1675,65 @@ def check_persist(case):
         X = os.path.join(base, "x")
         out = os.path.join(base, P_OUT)
         ABS = os.path.join(base, "o", "abs")
+        # the output directory may sit on another file system than the process's temp directory (an archive
+        # written to a tmpfs / another disk): renames into it fail with EXDEV, whatever is staged elsewhere must
+        # not stay there
+        alt = _other_fs_dir() if case.get("other_fs") else None
+        if alt is not None:
+            out = os.path.join(alt, "out")
+            labels.append("output-dir-on-another-file-system")
+        try:
+            return _check_persist_body(case, specs, labels, calls, base, R, X, out, ABS, alt)
+        finally:
+            if alt is not None:
+                shutil.rmtree(alt, ignore_errors=True)
 
+
+def _other_fs_dir():
+    """a fresh directory on a file system other than the one of tempfile.gettempdir(), or None"""
+    try:
+        here = os.stat(tempfile.gettempdir()).st_dev
+        for cand in ("/dev/shm", "/run/shm", "/var/tmp"):
+            if os.path.isdir(cand) and os.access(cand, os.W_OK | os.X_OK) and os.stat(cand).st_dev != here:
+                return tempfile.mkdtemp(prefix="vp-c06-out-", dir=cand)
+    except OSError:
+        pass
+    return None
+
+
+def _check_persist_body(case, specs, labels, calls, base, R, X, out, ABS, alt):
+    from insights.core.context import HostContext
+    if True:
         def sub(s):
             return s.replace("{X}", X).replace("{ABS}", ABS) if isinstance(s, str) else s
         ctx = RecordingHostContext(R, responder=lambda cmds: "OUT[%s]\nline\n" % " ".join(cmds[0]),
                                    real_prefixes=[base])
         Specs, Impl, names = build_world(specs, HostContext, sub, calls)
         before = fs_snapshot(base)
+        before_alt = fs_snapshot(alt) if alt is not None else None
         with audit_trace(needles=None, names=DEFAULT_EVENTS | frozenset(["os.mkdir"])) as events:
             broker = run_world(Specs, Impl, names, ctx, HostContext, out=out, persist=case["persist"])
         after = fs_snapshot(base)
         diff = fs_diff(before, after)
         outrel = P_OUT.split("/")
         n_created = 0
+        if alt is not None:
+            # nothing at all may appear in the sandbox now; everything created lies beneath <alt>/out
+            after_alt = fs_snapshot(alt)
+            diff_alt = fs_diff(before_alt, after_alt)
+            for kind in ("created", "changed", "removed"):
+                for rel in diff[kind]:
+                    raise Violation("collection %s %s in the temp area although the output directory is elsewhere "
+                                    "(on another file system)" % (kind, rel), diff=diff, specs=[s for s in specs])
+                for rel in diff_alt[kind]:
+                    if rel.split(os.sep)[:1] != ["out"]:
+                        raise Violation("collection %s %s, which is not beneath the output directory" % (kind, rel),
+                                        diff=diff_alt, specs=[s for s in specs])
+                    if kind == "created" and after_alt[rel][0] == "f":
+                        n_created += 1
+                    if after_alt.get(rel, ("x",))[0] == "l" and not is_within(
+                            os.path.realpath(os.path.join(alt, rel)), out):
+                        raise Violation("collection created %s in the archive, a link that leads out of it" % rel)
         for kind in ("created", "changed", "removed"):
             for rel in diff[kind]:
                 if rel.split(os.sep)[:len(outrel)] != outrel:
@@ -1713,7 +1759,7 @@ def check_persist(case):
             if target is None or target == os.devnull or "__pycache__" in target:
                 continue        # (byte-code of a lazily imported module is not collection output)
             t = os.path.normpath(os.path.abspath(target))
-            if is_within(t, base):
+            if is_within(t, base) or (alt is not None and is_within(t, alt)):
                 continue            # the diff above is authoritative inside the temp area
             if os.path.lexists(t):  # (still there = persisted)
                 raise Violation("collection wrote to %s, outside the output directory" % t, event=e)
@@ -1804,7 +1850,8 @@ def _p_spec(draw):
 @st.composite
 def _p_case(draw):
     return {"persist": draw(st.sampled_from(["observer", "after"])),
-            "specs": draw(st.lists(_p_spec(), min_size=1, max_size=5))}
+            "specs": draw(st.lists(_p_spec(), min_size=1, max_size=5)),
+            "other_fs": draw(st.sampled_from([False, False, True]))}
 
 
 def strat_persist(tier):
